@@ -243,4 +243,31 @@ CLAIMS["C07"] = {
     "note": "Trusts: joblib runs each task once; GIL atomicity of list.append; user objective/constraints thread-safe; predicting surrogates outside the claim.",
 }
 
+CLAIMS["C12"] = {
+    "category": "other",
+    "technique": "structure rules over the sampler sources: affine/rational normal forms (grid levels, stratum draw, sequence length), statement-order rules (radical-inverse recurrence), path rule (bases checked before use), argument wiring",
+    "text": "Decides the structural clauses of the samplers, each a necessary condition of the coverage property: the random generator "
+            "appends exactly one gen_vector per requested design; the grid has k levels lo+i(hi-lo)/(k-1) per parameter and is the full "
+            "itertools.product; Halton uses the first `dimension` sieve primes with the count checked on every path before use, takes "
+            "num_points+1 terms per base and drops term 0, and its digit loop is the radical-inverse recurrence with the denominator "
+            "multiplied before the digit is added; classic LHS cuts [0,1] with linspace(0,1,N+1), draws a+u(b-a) once per stratum and "
+            "column, and permutes every column independently, and is what the default criterion uses; all scalings are the unit-affine map "
+            "with the bounds of the same column (C08). Array contents as numeric facts, primality of the sieve and the optimised LHS "
+            "variants are not decided.",
+    "note": "Trusts: numpy linspace/rand/permutation/stack and itertools.product semantics; the pattern-to-theorem step (recurrence = radical inverse).",
+}
+CLAIMS["C13"] = {
+    "category": "other",
+    "technique": "constant-table check of the literal Plackett-Burman seeds (Hadamard test of the bordered Toeplitz/Hankel matrices they define), structure and statement-order rules (Sylvester doubling, mixed-radix update order, Box-Behnken block tiling by rational normal forms)",
+    "text": "Decides: fullfact is the mixed-radix enumeration (tile count divided before, repeat count multiplied after, each level repeated "
+            "`repeat` times) and construct_df pairs each column with its own factor; the 12- and 20-run Plackett-Burman seed vectors in the "
+            "source define Hadamard matrices (checked like a CRC table), doubling is Sylvester's [[H,H],[H,-H]], the run count is the next "
+            "multiple of four strictly above the factor count, the all-ones column is dropped and exactly `keep` columns kept, and codes map "
+            "to the two bounds only; Box-Behnken visits every pair i<j once, writes the two columns of the +-1 two-factor design into the "
+            "row block [(k-1)s, ks) of columns i and j over a matrix of centre codes with s*n(n-1)/2 factorial rows, and the generator adds "
+            "exactly one centre run and maps codes to (lo, mid, hi). With the stated theorems these give balance/orthogonality and "
+            "'every combination once' for all factor counts. The generalized subset design clause is NOT decided.",
+    "note": "Trusts: Hadamard => balanced orthogonal columns; Sylvester doubling; scipy toeplitz/hankel index conventions (re-implemented for the table check); the frexp-based seed selection is not decided.",
+}
+
 NOT_APPLICABLE = {}
